@@ -144,6 +144,99 @@ def write (nt aa : Alphabet) (g : Gencode) (addComment : Bool) : Option (List Na
     strBytes "  Base2  = " ++ (List.range 64).map (fun x => order.getD ((x % 16) / 4) 0) ++ [10] ++
     strBytes "  Base3  = " ++ (List.range 64).map (fun x => order.getD (x % 4) 0) ++ [10])
 
+/-! ### reading (`esl_gencode_Read` on an in-memory buffer: `esl_fileparser_NextLine` + five anchored regular expressions) -/
+
+/-- C `isspace` in the C locale -/
+def isSpace (c : Nat) : Bool := c = 32 || (9 ≤ c && c ≤ 13)
+
+/-- lines of a memory buffer as `nextline()` cuts them: each keeps its terminating `\n` -/
+def splitLines : List Nat → List Nat → List (List Nat)
+  | [], [] => []
+  | [], cur => [cur.reverse]
+  | c :: cs, cur => if c = 10 then (c :: cur).reverse :: splitLines cs [] else splitLines cs (c :: cur)
+
+/-- `esl_fileparser_NextLine`: skip blank lines and lines whose first non-blank character is `#` -/
+def isDataLine (l : List Nat) : Bool :=
+  match l.dropWhile isSpace with
+  | [] => false
+  | c :: _ => c ≠ 35
+
+/-- match `^\s*<kw>\s*=\s*(\S+)\s*$` where each keyword position offers its accepted characters;
+    returns the submatch start column and the token -/
+def matchLine (kw : List (List Nat)) (line : List Nat) : Option (Nat × List Nat) :=
+  let n0 := (line.takeWhile isSpace).length
+  let r0 := line.drop n0
+  let rec kwGo : List (List Nat) → List Nat → Option (List Nat)
+    | [], r => some r
+    | alts :: ks, c :: r => if alts.contains c then kwGo ks r else none
+    | _ :: _, [] => none
+  match kwGo kw r0 with
+  | none => none
+  | some r1 =>
+    let n1 := (r1.takeWhile isSpace).length
+    match r1.drop n1 with
+    | 61 :: r2 =>
+      let n2 := (r2.takeWhile isSpace).length
+      let r3 := r2.drop n2
+      let tok := r3.takeWhile (fun c => !isSpace c)
+      if tok.isEmpty then none
+      else if (r3.drop tok.length).all isSpace then some (n0 + kw.length + n1 + 1 + n2, tok) else none
+    | _ => none
+
+def kwAAs : List (List Nat) := [[65, 97], [65, 97], [115]]
+def kwStarts : List (List Nat) := [[83, 115], [116], [97], [114], [116], [115]]
+def kwBase (d : Nat) : List (List Nat) := [[66, 98], [97], [115], [101], [d]]
+
+/-- the per-column loop of `esl_gencode_Read`: returns the arrays and how often each codon / amino acid / stop was seen -/
+def readColumns (nt aa : Alphabet) (aas mline b1 b2 b3 : List Nat) :
+    Nat → List Nat → List Nat → List Nat → List Nat → Nat → Option (List Nat × List Nat × List Nat × List Nat × Nat)
+  | 0, basic, ini, cseen, aseen, stops => some (basic, ini, cseen, aseen, stops)
+  | k+1, basic, ini, cseen, aseen, stops =>
+    let pos := 64 - (k+1)
+    let a := aas.getD pos 0; let m := mline.getD pos 0
+    let x1 := b1.getD pos 0; let x2 := b2.getD pos 0; let x3 := b3.getD pos 0
+    if !aa.cIsValid a || !(decide (aa.inmapAt a < aa.K) || decide (aa.inmapAt a + 2 = aa.Kp)) then none
+    else if !nt.cIsValid x1 || !decide (nt.inmapAt x1 < nt.K) then none
+    else if !nt.cIsValid x2 || !decide (nt.inmapAt x2 < nt.K) then none
+    else if !nt.cIsValid x3 || !decide (nt.inmapAt x3 < nt.K) then none
+    else if m ≠ 45 ∧ m ≠ 109 ∧ m ≠ 77 then none
+    else
+      let codon := 16 * nt.inmapAt x1 + 4 * nt.inmapAt x2 + nt.inmapAt x3
+      let x := aa.inmapAt a
+      let (aseen, stops) := if x < 20 then (aseen.set x (aseen.getD x 0 + 1), stops) else (aseen, stops + 1)
+      readColumns nt aa aas mline b1 b2 b3 k (basic.set codon x) (ini.set codon (if m = 45 then 0 else 1))
+        (cseen.set codon (cseen.getD codon 0 + 1)) aseen stops
+
+/-- `esl_gencode_Read(efp, nt_abc, aa_abc, &gcode)` on a buffer; `none` = eslEFORMAT. The new object starts as a copy
+    of table 1 (`esl_gencode_Create`), passed as `init`. -/
+def read (nt aa : Alphabet) (init : Gencode) (buf : List Nat) : Option Gencode := do
+  let lines := (splitLines buf []).filter isDataLine
+  let l0 ← lines[0]?
+  let (start, aas) ← matchLine kwAAs l0
+  if aas.length ≠ 64 then none
+  let l1 ← lines[1]?
+  let (s1, mline) ← matchLine kwStarts l1
+  if mline.length ≠ 64 then none
+  if s1 ≠ start then none
+  let l2 ← lines[2]?
+  let (s2, b1) ← matchLine (kwBase 49) l2
+  if b1.length ≠ 64 then none
+  if s2 ≠ start then none
+  let l3 ← lines[3]?
+  let (s3, b2) ← matchLine (kwBase 50) l3
+  if b2.length ≠ 64 then none
+  if s3 ≠ start then none
+  let l4 ← lines[4]?
+  let (s4, b3) ← matchLine (kwBase 51) l4
+  if b3.length ≠ 64 then none
+  if s4 ≠ start then none
+  let (basic, ini, cseen, aseen, stops) ← readColumns nt aa aas mline b1 b2 b3 64 init.basic init.isInit
+    (List.replicate 64 0) (List.replicate 20 0) 0
+  if stops = 0 then none
+  if cseen.any (· = 0) then none
+  if aseen.any (· = 0) then none
+  some { translTable := -1, desc := "", basic := basic, isInit := ini }
+
 /-! ## the three-frame ORF machine (`esl_gencode_ProcessStart/Piece/Orf/End`) -/
 
 /-- an emitted ORF record -/
